@@ -65,6 +65,9 @@ type Frame struct {
 	IsMemo  bool    // result goes to the caller's Memo; the caller re-executes its instruction
 	Memo    []Value // results of helper calls requested by the instruction being executed
 	MemoIdx int
+	PinCount int
+	PinBlock *ssa.BasicBlock
+	PinIP    int
 	Env     []Value
 	Visits  map[*ssa.BasicBlock]int
 	BackEdges int
